@@ -66,6 +66,8 @@ type vfOpD struct {
 
 	hasTag bool
 	tag    string
+	hasPop bool
+	pop    bool
 }
 
 func (d *vfOpD) proto() *spb.AFTOperation {
@@ -130,6 +132,9 @@ func (d *vfOpD) proto() *spb.AFTOperation {
 		k := &aftpb.Afts_NextHopKey{Index: d.idx}
 		if d.hasBody {
 			k.NextHop = &aftpb.Afts_NextHop{NetworkInstance: s(d.hasTag, d.tag)}
+			if d.hasPop {
+				k.NextHop.PopTopLabel = &wpb.BoolValue{Value: d.pop}
+			}
 		}
 		op.Entry = &spb.AFTOperation_NextHop{NextHop: k}
 	}
@@ -158,6 +163,8 @@ type vfRefNHG struct {
 type vfRefNH struct {
 	hasTag bool
 	tag    string
+	hasPop bool
+	pop    bool
 }
 
 type vfRefNI struct {
@@ -353,7 +360,7 @@ func (r *vfRef) apply(d *vfOpD) {
 		}
 		n.nhg[d.idx] = g
 	case vfKNH:
-		n.nh[d.idx] = &vfRefNH{hasTag: d.hasTag, tag: d.tag}
+		n.nh[d.idx] = &vfRefNH{hasTag: d.hasTag, tag: d.tag, hasPop: d.hasPop, pop: d.pop}
 	}
 }
 
@@ -596,6 +603,11 @@ func (r *vfRef) compareP(real *RIB, p string, tablesOnly bool) {
 			}
 			vfAssert(e.Index != nil && *e.Index == k, p+"nh-key-consistent")
 			vfAssert(vfEqStrp(e.NetworkInstance, x.hasTag, x.tag), p+"nh-payload-equals-last-acked")
+			if e.PopTopLabel == nil {
+				vfAssert(!x.hasPop, p+"nh-pop-top-label-equals-last-acked")
+			} else {
+				vfAssert(vfAnd(x.hasPop, *e.PopTopLabel == x.pop), p+"nh-pop-top-label-equals-last-acked")
+			}
 		}
 		if tablesOnly {
 			continue
